@@ -46,7 +46,8 @@ pub fn jstr(s: &str) -> String {
 
 impl Report {
     pub fn new(prop: &str, seed: u64) -> Report {
-        let replay_dir = format!("/verif/replays/{}", prop);
+        let root = std::env::var("VERIF_ROOT").unwrap_or_else(|_| "/verif".to_string());
+        let replay_dir = format!("{}/replays/{}", root, prop);
         let _ = std::fs::create_dir_all(&replay_dir);
         Report {
             prop: prop.to_string(),
